@@ -4,7 +4,7 @@
    hook-exported key sets of the two decoder tables). *)
 From V.lib Require Import Base.
 From V.c04 Require Import C04Model C04AsmModel C04ContainerProofs.
-From V.c03 Require Import C03Model C03Spec C03Registry C03Proofs C03CanonProofs.
+From V.c03 Require Import C03Model C03Spec C03Registry C03Proofs C03CanonProofs C03LeafModel C03LeafProofs C03LeafBoxProofs.
 Open Scope N_scope.
 
 (* Encode to an io.Writer and EncodeSW to a slice writer: identical bytes or both fail, for every container tree and
@@ -66,6 +66,59 @@ Theorem C03_std_canon_large : forall nm p, std_large_ok nm p -> canon_large std_
 Proof. exact std_canon_large. Qed.
 Print Assumptions C03_std_canon_large.
 
+(* ---- the separately written LEAF decoder pairs (models of both decoders in C03LeafModel.v, each from its own Go text) ----
+   agree_at r1 r2 buf e: the reader-path decoder returned r1 on the body; the SliceReader-path decoder, run on the buffer
+   buf = pre ++ body ++ post at the body's position, returns the same value and stands at e = end of the body with no
+   accumulated error, or both fail.  hsize = 8 + len body is the compact header (readBoxBody delivers exactly that body). *)
+Theorem C03_trun_pair_agree : forall h body pre post,
+  hsize h = (8 + lenN body)%N -> (zlen (pre ++ body ++ post) < two63)%Z ->
+  agree_at (trun_body_r h body) (trun_sr h (mkR (pre ++ body ++ post) (zlen pre) false))
+           (pre ++ body ++ post) (zlen pre + zlen body)%Z.
+Proof. exact trun_pair_agree. Qed.
+Print Assumptions C03_trun_pair_agree.
+
+Theorem C03_senc_pair_agree : forall h body pre post,
+  hlen h = 8%N -> hsize h = (8 + lenN body)%N -> (hsize h < 4294967296)%N -> (zlen (pre ++ body ++ post) < two63)%Z ->
+  agree_at (senc_after_body_r h body) (senc_sr h (mkR (pre ++ body ++ post) (zlen pre) false))
+           (pre ++ body ++ post) (zlen pre + zlen body)%Z.
+Proof. exact senc_pair_agree. Qed.
+Print Assumptions C03_senc_pair_agree.
+
+(* mdat: compact AND 16-byte header; LargeSize = (hdr.Hdrlen > 8) on both paths *)
+Theorem C03_mdat_pair_agree : forall h body pre post,
+  (hlen h = 8 \/ hlen h = 16)%N -> hsize h = (hlen h + lenN body)%N -> (hsize h < 9223372036854775808)%N ->
+  (zlen (pre ++ body ++ post) < two63)%Z ->
+  agree_at (Ok (mkMdat body (8 <? hlen h)%N)) (mdat_sr h (mkR (pre ++ body ++ post) (zlen pre) false))
+           (pre ++ body ++ post) (zlen pre + zlen body)%Z.
+Proof. exact mdat_pair_agree. Qed.
+Print Assumptions C03_mdat_pair_agree.
+
+(* whole boxes through DecodeBox / DecodeBoxSR (header, maxSize test, dispatch, leaf decoder): a trun / senc / mdat box with a
+   compact header announcing the body that is present, followed by ANY bytes: both reject, or both accept with the same value,
+   the same Size(), the same number of bytes consumed, and no accumulated error *)
+Theorem C03_leaf_boxes_agree : forall nm body post,
+  nm = name_trun \/ nm = name_senc \/ nm = name_mdat ->
+  (lenN body < 4294967288)%N -> (zlen (framed nm body post) < two63)%Z ->
+  boxes_agree (framed nm body post) (8 + lenN body).
+Proof. exact leaf_boxes_agree. Qed.
+Print Assumptions C03_leaf_boxes_agree.
+
+(* the compact-header guard is exact: behind a 16-byte header (never written by the encoders of trun and senc, so not a
+   canonical string) the two trun decoders and the two senc decoders differ; witnesses reproduced on the Go code by the T lines *)
+Theorem C03_trun_large_header_differs :
+  trun_body_r trun_large_hdr trun_large_body = Ok (mkTrun 0 256 0 0 [mkTS 0 0 0 0; mkTS 0 0 0 0]) /\
+  trun_sr trun_large_hdr (rnew trun_large_body) = Err /\
+  (exists t s, trun_sr trun_large_hdr (rnew (trun_large_body ++ [0;0;0;7; 0;0;0;9]%N)) = Ok (t, s) /\
+               tr_samples t = [mkTS 0 7 0 0; mkTS 0 9 0 0]).
+Proof. exact trun_large_header_differs. Qed.
+Print Assumptions C03_trun_large_header_differs.
+
+Theorem C03_senc_large_header_differs :
+  senc_after_body_r senc_large_hdr senc_large_body = Err /\
+  exists v s, senc_sr senc_large_hdr (rnew senc_large_body) = Ok (v, s) /\ se_raw v = [170]%N /\ rerr s = false.
+Proof. exact senc_large_header_differs. Qed.
+Print Assumptions C03_senc_large_header_differs.
+
 (* the two dispatch tables register the same box types (regenerated from /repo on every run) *)
 Theorem C03_registry : keys_decoders = keys_decoders_sr.
 Proof. exact registry_equal. Qed.
@@ -113,3 +166,15 @@ Example ex_large_file : fst (file_sr std_leaves (cencs [CLeaf name_free [7]%N; C
   /\ fst (file_r std_leaves (cencs [CLeaf name_free [7]%N; CLarge name_mdat [9;8]%N; CLeaf name_free []]))
   = Ok [Leaf name_free 9; Leaf name_mdat 18; Leaf name_free 8].
 Proof. split; vm_compute; reflexivity. Qed.
+
+(* a trun box (flags 0x301: data offset, duration, size; 2 samples) followed by junk: accepted by both model decoders *)
+Example ex_trun_body : list N := [0;0;3;1; 0;0;0;2; 0;0;0;100; 0;0;4;0; 0;0;0;9; 0;0;4;0; 0;0;0;7]%N.
+Example ex_trun_box : leafbox_r (framed name_trun ex_trun_body [1;2;3]%N)
+  = Ok (LTrun (mkTrun 0 769 100 0 [mkTS 0 1024 9 0; mkTS 0 1024 7 0]), 36).
+Proof. vm_compute. reflexivity. Qed.
+Example ex_trun_box_sr : leafbox_sr (framed name_trun ex_trun_body [1;2;3]%N)
+  = Ok (LTrun (mkTrun 0 769 100 0 [mkTS 0 1024 9 0; mkTS 0 1024 7 0]), 36%Z, false).
+Proof. vm_compute. reflexivity. Qed.
+Example ex_senc_box : leafbox_r (framed name_senc [0;0;0;2; 0;0;0;1; 0;1; 0;5;0;0;0;9]%N [])
+  = Ok (LSenc (mkSenc 0 2 1 [0;1; 0;5;0;0;0;9]%N 24 true), 24).
+Proof. vm_compute. reflexivity. Qed.
